@@ -349,25 +349,31 @@ func runSingle(c Case, res *lib.Result) string {
 	return fmt.Sprintf("mkCase [%s] [%s]", strings.Join(maxes, "; "), strings.Join(trace, ";\n      "))
 }
 
-// multi-queue scripted scenario: the harness is the only releaser, so blocked states are stable
-func runMultiScript(c Case, res *lib.Result) {
+// multi-queue scripted scenario: the harness is the only releaser, so blocked states are stable.  Returns the
+// script as a Coq term for the composed model (Model/C17_Multi.v): caller 0 is the AcquireMulti call over all
+// queues, every filler slot is a caller of its own (want = [queue]); MStep = one critical section, MRun = run the
+// caller until it blocks or holds everything, MFin = run it to the end, MObs = hook snapshot of every queue.
+func runMultiScript(c Case, res *lib.Result) string {
 	qs := mkQueues(c)
 	n := len(qs)
 	if n < 2 {
-		return
+		return ""
 	}
 	r := lib.NewRand(c.Seed)
-	hold := make([]func(), n)
-	tryHold := func(i int) bool {
-		d, _ := qs[i].TryAcquire(context.Background(), verifhook.Data{Size: int64(900 + i)})
-		if d != nil {
-			hold[i] = d
-			return true
-		}
-		return false
+	mID := 0
+	wants := [][]int{{}}
+	for i := 0; i < n; i++ {
+		wants[0] = append(wants[0], i)
 	}
-	// fill every queue but leave the multi caller able to get some
-	mID := 7
+	var script []string
+	obs := func(mst int) {
+		it := make([]string, n)
+		for j := range qs {
+			a, w := snap(qs[j])
+			it[j] = fmt.Sprintf("(%s, %s)", coqNats(a), coqNats(w))
+		}
+		script = append(script, fmt.Sprintf("MObs [%s] %d", strings.Join(it, "; "), mst))
+	}
 	ctx, cancel := context.WithTimeout(context.Background(), 6*time.Second)
 	defer cancel()
 	var mDone func()
@@ -381,24 +387,31 @@ func runMultiScript(c Case, res *lib.Result) {
 		}
 		return -1
 	}
-	// saturate one random queue completely with harness holders
-	fillers := make([][]func(), n)
+	// saturate one random queue completely with harness holders, each with an id of its own
+	type filler struct {
+		id   int
+		done func()
+	}
+	fillers := make([][]filler, n)
 	fill := func(i int) {
 		for {
-			d, _ := qs[i].TryAcquire(context.Background(), verifhook.Data{Size: int64(800 + i)})
+			id := len(wants)
+			d, _ := qs[i].TryAcquire(context.Background(), verifhook.Data{Size: int64(id)})
 			if d == nil {
 				return
 			}
-			fillers[i] = append(fillers[i], d)
+			wants = append(wants, []int{i})
+			fillers[i] = append(fillers[i], filler{id, d})
+			script = append(script, fmt.Sprintf("MStep %d", id))
 		}
 	}
 	drain := func(i int) {
-		for _, d := range fillers[i] {
-			d()
+		for _, f := range fillers[i] {
+			f.done()
+			script = append(script, fmt.Sprintf("MFin %d", f.id))
 		}
 		fillers[i] = nil
 	}
-	_ = tryHold
 	first := r.Intn(n)
 	fill(first)
 	go func() {
@@ -406,8 +419,10 @@ func runMultiScript(c Case, res *lib.Result) {
 		mDone = d
 		ret <- err
 	}()
+	script = append(script, "MRun 0")
 	steps := 2 + r.Intn(4)
 	cur := first
+	ok := true
 	for s := 0; s < steps; s++ {
 		if !waitFor(func() bool { return blockedOn() == cur }) {
 			select {
@@ -416,6 +431,7 @@ func runMultiScript(c Case, res *lib.Result) {
 			default:
 				res.Fail("multi-not-blocked-where-expected", fmt.Sprintf("AcquireMulti should be waiting on queue %d", cur), c)
 			}
+			ok = false
 			break
 		}
 		// while blocked it must hold nothing
@@ -425,6 +441,7 @@ func runMultiScript(c Case, res *lib.Result) {
 				res.Fail("multi-holds-while-blocked", fmt.Sprintf("AcquireMulti is blocked on queue %d but still holds a slot of queue %d", cur, j), c)
 			}
 		}
+		obs(1)
 		// saturate another queue, then free the one it waits on
 		nxt := r.Intn(n)
 		if nxt == cur {
@@ -432,15 +449,23 @@ func runMultiScript(c Case, res *lib.Result) {
 		}
 		fill(nxt)
 		drain(cur)
+		script = append(script, "MRun 0")
 		cur = nxt
+	}
+	if ok && waitFor(func() bool { return blockedOn() == cur }) {
+		obs(1)
+	} else {
+		ok = false
 	}
 	for i := range qs {
 		drain(i)
 	}
+	script = append(script, "MRun 0")
 	select {
 	case err := <-ret:
 		if err != nil {
 			res.Fail("multi-error", fmt.Sprintf("AcquireMulti failed: %v", err), c)
+			ok = false
 		} else {
 			for j := range qs {
 				a, _ := snap(qs[j])
@@ -448,7 +473,10 @@ func runMultiScript(c Case, res *lib.Result) {
 					res.Fail("multi-missing-slot", fmt.Sprintf("AcquireMulti returned but does not hold queue %d", j), c)
 				}
 			}
+			obs(2)
 			mDone()
+			script = append(script, "MFin 0")
+			obs(3)
 		}
 	case <-time.After(5 * time.Second):
 		st := []string{}
@@ -458,7 +486,7 @@ func runMultiScript(c Case, res *lib.Result) {
 		}
 		res.Fail("multi-deadlock", "AcquireMulti still waiting after every other holder released: "+strings.Join(st, "; "), c)
 		cancel()
-		return
+		return ""
 	}
 	for j := range qs {
 		a, w := snap(qs[j])
@@ -467,6 +495,18 @@ func runMultiScript(c Case, res *lib.Result) {
 		}
 	}
 	res.Count("multiscript")
+	if !ok {
+		return ""
+	}
+	maxes := make([]string, n)
+	for i, m := range c.Max {
+		maxes[i] = fmt.Sprint(m)
+	}
+	ws := make([]string, len(wants))
+	for i, w := range wants {
+		ws[i] = coqNats(w)
+	}
+	return fmt.Sprintf("mkMulti [%s] [%s] [%s]", strings.Join(maxes, "; "), strings.Join(ws, "; "), strings.Join(script, ";\n      "))
 }
 
 // random concurrent workload of AcquireMulti / Acquire / TryAcquire callers
@@ -607,7 +647,7 @@ func runCase(c Case, res *lib.Result) string {
 	case "single":
 		return runSingle(c, res)
 	case "multiscript":
-		runMultiScript(c, res)
+		return runMultiScript(c, res)
 	case "multirand":
 		runMultiRand(c, res)
 	}
@@ -639,7 +679,7 @@ func Run(o lib.Opts) {
 		return
 	}
 	r := lib.NewRand(o.Seed)
-	cw := lib.NewCaseWriter(o.Out, "C17", "From Coq Require Import List.\nFrom Verif Require Import Model.C17_PQueue Corr.C17.\nImport ListNotations.", "case", 400)
+	cw := lib.NewCaseWriter(o.Out, "C17", "From Coq Require Import List.\nFrom Verif Require Import Model.C17_PQueue Model.C17_Multi Corr.C17.\nImport ListNotations.", "case", 400)
 	var all []Case
 	for _, nx := range []string{"default", "size"} {
 		for m := 1; m <= 3; m++ {
